@@ -52,6 +52,19 @@ AddTomogram_(L, tab, id) ==
       cat == IF NRows(L.tab) = 0 THEN new ELSE ConcatWith_(L.tab, new)
   IN Loader("batch", cat, SortedSeqOfSet({L.imgs[i] : i \in 1..Len(L.imgs)} \cup {id}), L.img, L.bin)
 
+(* add_loader / from_loaders: the molecules of ANOTHER loader X arrive together with the tomograms they were registered with.
+   X is made of the spare table T.  form "single": a SubtomogramLoader, one tomogram (codes[1]) for all rows of T;
+   form "batch2": a BatchLoader in which row i of T sits in its own tomogram codes[i] (registered under ids of X's own choosing:
+   ids are local to a batch, the tomogram a row loads from is not).  A tomogram is identified by its content (code). *)
+XTabs(T, form) == IF form = "single" THEN <<T>> ELSE [i \in 1..NRows(T) |-> Table(T.cols, <<T.rows[i]>>)]
+AddLoader_(L, T, form, codes) ==
+  LET xs == XTabs(T, form) IN FoldLeft(LAMBDA acc, i : AddTomogram_(acc, xs[i], codes[i]), L, [i \in 1..Len(xs) |-> i])
+EmptyBatch == Loader("batch", Table(<<"img">>, <<>>), <<>>, -1, 1)
+AsBatch(L) == IF L.kind = "batch" THEN L ELSE AddTomogram_(EmptyBatch, L.tab, L.img)
+FromLoaders_(L, T, form, codes) == AddLoader_(AsBatch(L), T, form, codes)
+Fresh2(L) == LET a == NextImgId(L) IN
+  <<a, CHOOSE n \in (a + 1)..(a + Len(L.imgs) + 2) : n \notin ImgSet(L) /\ \A m \in (a + 1)..(n - 1) : m \in ImgSet(L)>>
+
 (* grouping of a loader: partition of the rows; each group is a derived loader *)
 IsLoaderGrouping(L, col, groups) ==
   /\ IsGrouping(L.tab, col, [i \in 1..Len(groups) |-> [key |-> groups[i].key, tab |-> groups[i].ldr.tab]])
